@@ -444,6 +444,10 @@ func defineIntersectionOrDictionaryType() {
 					p.report(&MissingClosingBraceInIntersectionOrDictionaryTypeError{
 						Pos: p.current.StartPos,
 					})
+					// The type ends where the input ends:
+					// without this the type's end position is the zero position,
+					// and ranges built from the type (e.g. in reported errors) end before they start
+					endPos = p.current.StartPos
 					atEnd = true
 
 				default:
